@@ -76,10 +76,13 @@ theorem readBody_total (s : Sock) (h : Dic) : ∃ r, readBody s h = .ok r ∧ Co
   obtain ⟨r, hr, _⟩ := readBody_ok s h
   exact ⟨r, hr, readBody_suffix s h r hr⟩
 
-/-- the whole keep-alive loop of `HttpServer::serve(Socket)` ends within `|stream| + 1` requests on every stream -/
-theorem serve_total (s : Sock) : ∃ r, serve s = .ok r ∧ ConsumesPrefix s r.1 := by
+/-- the whole keep-alive loop of `HttpServer::serve(Socket)` ends within `|stream| + 1` requests on every stream, and
+    `serve` returns with the connection closed on every exit of the loop (peer closed, Connection: close, HTTP/1.0, a
+    refused request: `closeBehind`, 7f6f841) -/
+theorem serve_total (s : Sock) : ∃ r, serve s = .ok r ∧ ConsumesPrefix s r.1 ∧ r.1.closed = true := by
   obtain ⟨r, hr, _, _⟩ := serve_ok s
-  exact ⟨r, hr, serve_suffix s r hr⟩
+  obtain ⟨r0, _, hres⟩ := serve_eq s r hr
+  exact ⟨r, hr, serve_suffix s r hr, by rw [hres]; exact closeBehind_closed r0.1⟩
 
 /-- `Url::Url(s)` never indexes outside `s`, for every byte string.  (False before fix f8af29f: `"[/]:8"`.) -/
 theorem url_total (u : Bytes) : ∃ r, parseUrl u = .ok r := parseUrl_ok u
@@ -264,10 +267,16 @@ theorem read_faithful (q : WfReq) (rest : Bytes) (hw : WellFormed q) :
     order sent, exactly once, with nothing left unread — for any number of requests of any sizes -/
 theorem serve_faithful (qs : List WfReq) (hq : ∀ q ∈ qs, WellFormed q ∧ Dispatched q) :
     ∃ s', serve { inp := qs.flatMap serialize } = .ok (s', qs.map reqOf) ∧ s'.inp = [] ∧ s'.err = 0 := by
-  unfold serve
   obtain ⟨s', h1, h2, h3⟩ := iterate_serve_pipelined qs hq ((qs.flatMap serialize).length + 1)
     { inp := qs.flatMap serialize } [] rfl rfl rfl (by have := flatMap_serialize_length qs; omega)
-  exact ⟨s', by simpa using h1, h2, h3⟩
+  have hloop : serveLoop { inp := qs.flatMap serialize } = .ok (s', qs.map reqOf) := by
+    unfold serveLoop
+    simpa using h1
+  refine ⟨closeBehind s', serve_of_loop _ _ hloop, ?_, ?_⟩
+  · have hle := closeBehind_inp_le s'
+    rw [h2] at hle
+    exact List.eq_nil_of_length_eq_zero (by simpa using hle)
+  · exact closeBehind_err s' h3
 
 /-- **read ∘ serialize = id for chunked framing**: a well-formed head with `Transfer-Encoding: chunked` (and no
     Content-Length), any list of non-empty chunks of fewer than 2^31 bytes each in the canonical encoding
